@@ -23,6 +23,7 @@ from typing import (
 )
 from warnings import warn
 
+from optlang.symbolics import Zero
 
 if TYPE_CHECKING:
     from optlang.interface import Variable
@@ -1251,6 +1252,14 @@ class Reaction(Object):
                         f"instead of strings as keys."
                     )
                 self._model.metabolites.get_by_id(metabolite)
+            elif (
+                not isinstance(metabolite, str)
+                and self._model is not None
+                and metabolite.id not in self._model.metabolites
+            ):
+                # A metabolite new to the model: let the solver interface refuse
+                # an unusable identifier before anything is changed.
+                self._model.problem.Constraint(Zero, name=metabolite.id)
 
         for metabolite, coefficient in metabolites_to_add.items():
             # Make sure metabolites being added belong to the same model, or
